@@ -359,7 +359,7 @@ class BrokerMachine(object):
         if expect_exc is not None:
             if got_exc is None:
                 fails.append(fail('C15.silent_acceptance', {'event': ev}, 'valid-path:%s' % kind))
-            elif type(got_exc) is not expect_exc:
+            elif not isinstance(got_exc, expect_exc):
                 fails.append(fail('C15.error_type', {'event': ev, 'got': repr(got_exc),
                                                      'expected': expect_exc.__name__},
                                   'valid-path:%s' % kind))
